@@ -414,7 +414,7 @@ def unpackbits(a : np.ndarray):
     adds a new last axis with the bits of each item. Bits are in 'little'-order, i.e.,
     a[...,0] is the least significant bit of each item.
     """
-    return np.unpackbits(a.view(np.uint8), bitorder='little').reshape(*a.shape, 8*a.itemsize)
+    return np.unpackbits(np.ascontiguousarray(a).view(np.uint8), bitorder='little').reshape(*a.shape, 8*a.itemsize)
 
 
 def packbits(a, dtype=np.uint8):
